@@ -68,12 +68,18 @@ fn num(f: &Field, x: u32) -> String {
             }
         }
         10 => format!("{x}usize"),
+        // class B, `bit-index-wraps-usize`: the position (nominally 0) is spelled usize::MAX
+        150 if x == 0 => "18446744073709551615".to_string(),
         _ if f.zero_pad => format!("0{x}"),
         _ => format!("{x}"),
     }
 }
 
 fn range_text(f: &Field) -> String {
+    // class B, `range-start-wraps-usize`: lower limit usize::MAX, upper limit 6
+    if f.syntax == 151 {
+        return "18446744073709551615..=6".to_string();
+    }
     // single-bit entries of a list may be written `n` or `n..=n`
     let one = |&(lo, hi): &(u32, u32), in_list: bool| -> String {
         if f.syntax == 1 {
